@@ -77,16 +77,19 @@ MUTANTS = {
         'SystemExit path (and cancellation) skips the restore'),
     'revert_F5_json_path_replace': ('C20', {'missing_json', 'exit_status'}, 'git:22e6eea', 'JSON path mangled for repeated / suffix-less names'),
     'cli_exit_0_on_failure': ('C20', {'exit_status'}, [
-        (MAIN, "rc = 1\ntry:\n    geophires.main()\n    rc = 0\nfinally:", "rc = 0\ntry:\n    geophires.main()\nexcept Exception as e:\n    print(e)\nfinally:")], 'failure swallowed'),
+        (MAIN, "rc = 1\ntry:\n    geophires.main()\n    rc = 0\nexcept SystemExit:", "rc = 0\ntry:\n    geophires.main()\nexcept Exception as e:\n    print(e)\nexcept SystemExit:")],
+        'failure swallowed'),
     'cli_relative_output_resolved_after_chdir': ('C20', {'wrong_output_path', 'missing_json', 'stray_file'}, [
         (MAIN, "    sys.argv[2] = Path(parsed_args['output-file']).absolute()", "    sys.argv[2] = Path(parsed_args['output-file'])")], 'relative output lands in the package directory'),
     'duplicate_label_in_report': ('C10', {'order_dependent_parse', 'parse_mismatch'}, [
         (OUT, "                f.write(NL)\n                f.write('                           ***SUMMARY OF RESULTS***\\n')",
-         "                f.write('      Previous Project NPV:   0.00 MUSD\\n')\n                f.write(NL)\n                f.write('                           ***SUMMARY OF RESULTS***\\n')")],
-        "a label that contains another field's label as a substring"),
-    'parser_takes_unit_from_next_token': ('C10', {'parse_mismatch', 'csv_mismatch'}, [
-        (RES, "        if len(val_and_unit_tuple) == 2:\n            unit = val_and_unit_tuple[1]", "        if len(val_and_unit_tuple) >= 2:\n            unit = val_and_unit_tuple[-1]")],
-        'unit token'),
+         "                f.write('      Estimate    Project NPV:    99.00 MUSD\\n')\n                f.write(NL)\n                f.write('                           ***SUMMARY OF RESULTS***\\n')")],
+        "a new report line that contains another field's label after four spaces"),
+    'parser_truncates_at_thousands_separator': ('C10', {'parse_mismatch', 'csv_mismatch'}, [
+        (RES, "            number_str = number_str.replace(',', '')\n", "            number_str = number_str.split(',')[0]\n")],
+        'values >= 1000 printed with separators'),
+    'parser_profile_drops_last_row': ('C10', {'parse_mismatch'}, [
+        (RES, "        data_lines = profile_lines[5:]\n", "        data_lines = profile_lines[5:-1]\n")], 'dropped row'),
 }
 
 
